@@ -121,6 +121,11 @@ class UnionMatcher(AdditiveBiMatcher):
 
     _id = None
 
+    def reset(self):
+        self._id = None
+        self.a.reset()
+        self.b.reset()
+
     def replace(self, minquality=0):
         a = self.a
         b = self.b
